@@ -14,14 +14,14 @@ from odml.tools.dict_parser import DictReader, DictWriter
 CARDS = [None, (None, 5), (2, None), (1, 3), (2, 2), (0, 3), (2, 10), (9, 12), (3, 100)]
 PV = [
     ("string", ["yes", "null"]), ("string", ["1e3", "2020-01-01"]), ("string", [" padded ", "a,b"]), ("string", ["~", "0x10", "12:30:00"]),
-    ("text", ["line1\nline2", "x"]), ("int", [1, 2 ** 70, -5]), ("float", [0.1 + 0.2, 1e-320, -0.0, 1.7976931348623157e308]),
+    ("text", ["line1\nline2", "x"]), ("int", [1, 2 ** 70, -5]), ("int", [0, 5, 0]), ("float", [0.1 + 0.2, 1e-320, -0.0, 1.7976931348623157e308]),
     ("boolean", [True, False]), ("date", [dt.date(2020, 1, 2), dt.date(1999, 12, 31)]), ("time", [dt.time(1, 2, 3)]),
     ("datetime", [dt.datetime(2020, 1, 2, 3, 4, 5)]), ("url", ["http://x.org/a?b=1&c=2"]), ("person", ["Ünï Cödé <a@b>"]),
     ("date", [dt.date(987, 6, 5)]), ("text", ["first note", "second\nline", "third"]),
     ("string", ["a", "b b", "c", "d", "e", "f", "g", "h", "i", "j", "k", "l"]),
     ("2-tuple", ["(1;2)", "(3;4)"]), ("3-tuple", ["(a;b;c)"]), ("int", []), (None, []), ("string", ['say "hi"', "it's", "[br]"]), ("string", ["100%", "%%d"]), ("string", ["next\x85line", "sep\u2028arator", "nb\xa0sp"]),
 ]
-TEXTS = ["plain", "  surrounded by space \n", "<tag> & \"quote\"", "ünï", "yes", "12", None, "50%% of 10% %s",
+TEXTS = ["plain G-Node text", "  surrounded by space \n", "<tag> & \"quote\"", "ünï", "yes", "12", None, "50%% of 10% %s",
          "two  blanks\tand a\nline break, NEL \x85 and LS \u2028 inside"]
 
 
@@ -202,6 +202,47 @@ def replay(st):
                     rec["world"] = unc_text(W.project_full({"r1": odml.Document()}, idtok)[0])
                 rec["exp"] = exp_xml if fmt == "XML" else pre_u
                 yield rec
+            # XML of another tool that declares a general entity in its DOCTYPE and uses it inside texts
+            text = foreign_xml(doc)
+            if "G-Node" in text:
+                rec = {"fam": "formats", "src": "model", "t": "foreign", "fmt": "XML", "entry": "string-with-entity", "mode": "strict", "opt": "plain",
+                       "variant": variant, "out": "ok", "exc": "none", "x": "d1", "y": "r1", "warnings": 0,
+                       "vocab": {"root": "-", "version": "-", "pairs": []}, "dictkeys": []}
+                try:
+                    rd = XMLReader(ignore_errors=False, show_warnings=False)
+                    loaded = rd.from_string('<!DOCTYPE odML [<!ENTITY lab "G-Node">]>\n' + text.replace("G-Node", "&lab;"))
+                    rec["warnings"] = len(rd.warnings)
+                    rec["world"] = unc_text(W.project_full({"r1": loaded}, idtok)[0])
+                except Exception as e:
+                    rec["out"], rec["exc"] = "raised", type(e).__name__
+                    rec["world"] = unc_text(W.project_full({"r1": odml.Document()}, idtok)[0])
+                rec["exp"] = exp_xml
+                yield rec
+            # one XMLWriter object: rendered once, the document edited, written again
+            rec = {"fam": "formats", "src": "model", "t": "doc", "fmt": "XML", "entry": "writer-reused", "mode": "strict", "opt": "plain", "variant": variant,
+                   "out": "ok", "exc": "none", "x": "d1", "y": "r1", "warnings": 0, "vocab": {"root": "-", "version": "-", "pairs": []}, "dictkeys": []}
+            try:
+                wr = XMLWriter(doc)
+                str(wr)
+                late = odml.Section(name="late-addition", type="t", parent=doc)
+                odml.Property(name="late", values=[1, 2], unit="mV", parent=late)
+                doc.author = "changed author"
+                objs2 = dict(objs); objs2["lt1"] = late
+                now, _ = W.project_full(objs2, idtok)
+                rec["exp"] = unc_text(strip_world(now))
+                path = os.path.join(d, "again.xml")
+                wr.write_file(path)
+                text = open(path, encoding="utf-8").read()
+                rec["vocab"] = vocab_xml(text)
+                rd = XMLReader(ignore_errors=False, show_warnings=False)
+                loaded = rd.from_file(path)
+                rec["warnings"] = len(rd.warnings)
+                rec["world"] = unc_text(W.project_full({"r1": loaded}, idtok)[0])
+            except Exception as e:
+                rec["out"], rec["exc"] = "raised", type(e).__name__
+                rec["world"] = unc_text(W.project_full({"r1": odml.Document()}, idtok)[0])
+                rec.setdefault("exp", exp_xml)
+            yield rec
     finally:
         shutil.rmtree(d, ignore_errors=True)
 
